@@ -2,6 +2,7 @@ import Grol.Parser
 import Grol.Printer
 import Grol.Classes
 import GrolProofs.StreamWF
+import GrolProofs.PrintParseProg
 /-
 C02 — print then parse gives the same tree.
 
@@ -13,8 +14,11 @@ the witness source and for the text the real printer (= the model printer, compa
 produces for it; the printer model is defined by well-founded recursion and is not evaluated by `decide` (these streams are re-derived from the real code on
 every run by the known-finding replay of the `format` suite, which also checks that the model's printed
 text equals the real one).  `C02.Safe` is the complement of the recorded classes (Grol/Classes.lean).
-Not proved: `Statement` restricted to `Safe` (a Pratt-parser/printer round-trip theorem; it also needs
-the lexer model).
+Proved (second half of this file): `roundtrip_partial`, the positive round-trip theorem for the fragment
+`PrintTokens.fragProg` at the TOKEN level (the printer's output is described by `PrintTokens.progToks`, tied to
+the real printer and lexer by the `printtokens` suite), in all four print modes.
+Not proved: `Statement` restricted to `Safe` beyond that fragment; the byte-level composition through the lexer
+model (`roundtrip_partial_lex` takes it as the hypothesis `PrintLex`).
 -/
 namespace Grol.C02
 open Grol Grol.Wire Grol.Parser Grol.Printer Grol.Generated
@@ -136,5 +140,190 @@ theorem witness_repeated_associative_operator :
 
 /-- the witness streams satisfy the lexer facts the parser theorem assumes -/
 example : StreamWF stmtPrefix.src := streamWF_of_b (by decide)
+
+
+/-! ## the positive half: print then parse gives the same tree, for a fragment -/
+
+open Grol.PrintTokens Grol.RT
+
+/-- **C02, partial, token level, kernel-checked.**  For every program `prog` of the fragment
+`fragProg compact allParens prog` and every token stream `s` whose tokens are — up to `key` (type, literal,
+number class, and "whitespace in front" for `(` and `[`: everything an error-free parse reads) — the rendering
+`progToks compact allParens prog` of the printer's output followed by the end marker, `ParseProgram` on `s`
+returns exactly `prog`, with no error and no continuation request, for every sufficiently large fuel.
+Both print modes of the property (`compact` = false/true with `allParens = false`) and the two all-parentheses modes.
+
+The heart is `RT.gpx_node`: Pratt parsing inverts the printer's minimal-parenthesis rule (an operand is put in
+parentheses iff its operator's precedence is below the context's `ExpressionPrecedence`; right operands are printed
+one level up), proved by induction on the tree over the generated precedence and registration tables.
+
+INSIDE the fragment (`PrintTokens.fragN` / `fragS`, decidable, per print mode) — every node kind of the language except comments:
+  * expressions: identifiers and `..`; integer, float, string and boolean literals; `break` / `continue`; the seven prefix operators
+    `! - + ++ -- ~ ^`; postfix `x++` / `x--`; all 21 binary operators registered with parseInfixExpression
+    (`= := || && : == != < <= > >= + - | ^ * % & << >> /`, hence slices `a[i:j]`); the open-ended slice `a[n:]`; calls `f(a, b)`;
+    the builtins `len first rest print println log error catch quote unquote del` with their argument lists; index `a[i]` and
+    `a.b` / `a.(e)` / `(1).b` (with the printer's parentheses around non-single-token and number operands of a dot); array
+    literals; map literals `{k: v, …}`; function literals `func name(a, b, ..) { … }` (named or not, variadic or not); lambdas
+    `x => { … }`, `(a, b, ..) => { … }`, `() => { … }` (with the printer's parentheses in operand position); macros
+    `macro(a, b) { … }`; `for cond { … }`; `if cond { … }`, `… else { … }` and `… else if …` chains;
+  * statement lists (a program, and every block): expression statements and `return e`; a bare `return` only as the last
+    statement; in NORMAL mode without all-parens no statement but the first of its list starts with `-`, `+`, `^`, `++`, `--`;
+  * trees need NOT come from the parser (any nesting, e.g. `(a + b) * c`, `-(a * b)`, `(a = b)[c]`, `if (if a {b}) {c}`, `(x => {x})(1)`).
+
+OUTSIDE (not covered): comments (any position); an open-ended `n:` that is not directly the index of `a[…]`
+(`a[b || c:]` parses as `b || (c:)`); line mode (EOL end marker).
+Recorded OPEN finding classes that show the FULL statement (`Statement`) is false of the code, all outside the fragment:
+  * repeated-associative-operator-on-the-right (`a + (b + c)` printed `a + b + c`): excluded by `fragN` on `.infix`
+    (`!sameAssociativeOperator`), see `outside_fragment_assoc`;
+  * statement-starts-with-prefix-operator (normal mode): excluded by `fragS`, see `outside_fragment_stmt`
+    (compact mode prints such a statement in parentheses and IS covered);
+  * comment-inside-expression: comments are not in the fragment.
+Found by the `printtokens` suite while tying `progToks` to the code and since repaired in the code (e5e6eb7): `a.(..)` was printed
+`a...`, which the lexer reads `a`, `..`, `.`; the index `..` (and `..++`) now keeps its parentheses, `Printer.isSingleToken` and hence
+`progToks` follow, and these trees are INSIDE the fragment.
+The link "lexing the printed bytes gives `progToks`" is not a theorem: it is checked on every case of the `printtokens`
+suite (real printer, real lexer; ~2.4·10^4 in-fragment programs per quick run, 4 modes each; ~3·10^5 thorough). -/
+theorem roundtrip_partial (compact allParens : Bool) (prog : NList) (hfrag : fragProg compact allParens prog = true)
+    (s : TokStream) (hs : s.toks.map key = progKeys compact allParens prog) :
+    ∃ F, ∀ fuel, F ≤ fuel → parseProgram s fuel = .ok { program := prog, errors := 0, cont := false } :=
+  parse_rendered compact allParens prog hfrag s hs
+
+/-- the stream with all positions zero is one such stream -/
+theorem roundtrip_streamOf (compact allParens : Bool) (prog : NList) (hfrag : fragProg compact allParens prog = true) :
+    ∃ F, ∀ fuel, F ≤ fuel →
+      parseProgram (streamOf (progToks compact allParens prog)) fuel = .ok { program := prog, errors := 0, cont := false } :=
+  roundtrip_partial compact allParens prog hfrag _ (by simp [streamOf, progKeys])
+
+/-- "lexing the printed text of a program of the fragment gives its token rendering": what the `printtokens` suite
+checks case by case for the real lexer and the real printer (whose bytes the `format` suite compares with the model's) -/
+def PrintLex (lex : Bytes → TokStream) (tbl : Nat → Bool) : Prop :=
+  ∀ compact prog, fragProg compact false prog = true →
+    ∃ out, printProgram tbl prog compact false = .ok out ∧ (lex out).toks.map key = progKeys compact false prog
+
+/-- `Statement` restricted to the programs of the fragment, relative to `PrintLex`: the shape of `StatementAt`, with the
+fuel of the second parse chosen large enough (the re-parsed program is EQUAL to the original, which is stronger than `sameTree`) -/
+theorem roundtrip_partial_lex (lex : Bytes → TokStream) (tbl : Nat → Bool) (hlex : PrintLex lex tbl)
+    (src : Bytes) (fuel : Nat) (prog : NList) (_hp : valid (parseProgram (lex src) fuel) = some prog)
+    (compact : Bool) (hfrag : fragProg compact false prog = true) :
+    ∃ out prog', printProgram tbl prog compact false = .ok out ∧
+      (∃ F, ∀ fuel', F ≤ fuel' → valid (parseProgram (lex out) fuel') = some prog') ∧ sameTree compact prog' prog := by
+  obtain ⟨out, hout, hk⟩ := hlex compact prog hfrag
+  obtain ⟨F, hF⟩ := roundtrip_partial compact false prog hfrag (lex out) hk
+  exact ⟨out, prog, hout, ⟨F, fun fuel' h => by rw [hF fuel' h]; rfl⟩, rfl⟩
+
+/-! ### non-vacuity and the boundary of the fragment -/
+
+/-- `a + b * (c - d) < -e` -/
+def exTree : Node :=
+  .infix ⟨.LT, [60]⟩ (some (.infix ⟨.PLUS, [43]⟩ (some (.ident ⟨.IDENT, [97]⟩))
+      (some (.infix ⟨.ASTERISK, [42]⟩ (some (.ident ⟨.IDENT, [98]⟩))
+         (some (.infix ⟨.MINUS, [45]⟩ (some (.ident ⟨.IDENT, [99]⟩)) (some (.ident ⟨.IDENT, [100]⟩))))))))
+    (some (.pre ⟨.MINUS, [45]⟩ (some (.ident ⟨.IDENT, [101]⟩))))
+
+/-- `f(a, [1, "s"])[i].x = !b` then `(a + b) * c` -/
+def exProg : NList :=
+  [some (.infix ⟨.ASSIGN, [61]⟩
+     (some (.index ⟨.DOT, [46]⟩
+        (some (.index ⟨.LBRACKET, [91]⟩
+          (some (.call ⟨.LPAREN, [40]⟩ (some (.ident ⟨.IDENT, [102]⟩))
+            [some (.ident ⟨.IDENT, [97]⟩), some (.array ⟨.LBRACKET, [91]⟩ [some (.intLit ⟨.INT, [49]⟩), some (.strLit ⟨.STRING, [115]⟩)])]))
+          (some (.ident ⟨.IDENT, [105]⟩))))
+        (some (.ident ⟨.IDENT, [120]⟩))))
+     (some (.pre ⟨.BANG, [33]⟩ (some (.ident ⟨.IDENT, [98]⟩))))),
+   some (.infix ⟨.ASTERISK, [42]⟩
+     (some (.infix ⟨.PLUS, [43]⟩ (some (.ident ⟨.IDENT, [97]⟩)) (some (.ident ⟨.IDENT, [98]⟩))))
+     (some (.ident ⟨.IDENT, [99]⟩)))]
+
+/-- `func f(a, ..) { if a < 1 { return a } else if !a { x++ } else { break }; for a { print(a) }; return }` -/
+def exFunc : NList :=
+  [some (.func ⟨.FUNC, [102, 117, 110, 99]⟩ (some ⟨.IDENT, [102]⟩)
+    [some (.ident ⟨.IDENT, [97]⟩), some (.ident ⟨.DOTDOT, [46, 46]⟩)]
+    (some [
+      some (.ifE ⟨.IF, [105, 102]⟩ (some (.infix ⟨.LT, [60]⟩ (some (.ident ⟨.IDENT, [97]⟩)) (some (.intLit ⟨.INT, [49]⟩))))
+        (some [some (.ret ⟨.RETURN, [114, 101, 116, 117, 114, 110]⟩ (some (.ident ⟨.IDENT, [97]⟩)))])
+        (some [some (.ifE ⟨.IF, [105, 102]⟩ (some (.pre ⟨.BANG, [33]⟩ (some (.ident ⟨.IDENT, [97]⟩))))
+          (some [some (.post ⟨.INCR, [43, 43]⟩ ⟨.IDENT, [120]⟩)])
+          (some [some (.control ⟨.BREAK, [98, 114, 101, 97, 107]⟩)]))])),
+      some (.forE ⟨.FOR, [102, 111, 114]⟩ (some (.ident ⟨.IDENT, [97]⟩))
+        (some [some (.builtin ⟨.PRINT, [112, 114, 105, 110, 116]⟩ [some (.ident ⟨.IDENT, [97]⟩)])])),
+      some (.ret ⟨.RETURN, [114, 101, 116, 117, 114, 110]⟩ none)])
+    true false)]
+
+/-- `m = {"k": x => {x + 1}, 2: (a, b) => {a[b:]}}` then `m.k(3)` -/
+def exMap : NList :=
+  [some (.infix ⟨.ASSIGN, [61]⟩ (some (.ident ⟨.IDENT, [109]⟩))
+     (some (.mapLit ⟨.LBRACE, [123]⟩
+       [some (.strLit ⟨.STRING, [107]⟩),
+        some (.func ⟨.LAMBDA, [61, 62]⟩ none [some (.ident ⟨.IDENT, [120]⟩)]
+          (some [some (.infix ⟨.PLUS, [43]⟩ (some (.ident ⟨.IDENT, [120]⟩)) (some (.intLit ⟨.INT, [49]⟩)))]) false true),
+        some (.intLit ⟨.INT, [50]⟩),
+        some (.func ⟨.LAMBDA, [61, 62]⟩ none [some (.ident ⟨.IDENT, [97]⟩), some (.ident ⟨.IDENT, [98]⟩)]
+          (some [some (.index ⟨.LBRACKET, [91]⟩ (some (.ident ⟨.IDENT, [97]⟩))
+            (some (.infix ⟨.COLON, [58]⟩ (some (.ident ⟨.IDENT, [98]⟩)) none)))]) false true)]))),
+   some (.call ⟨.LPAREN, [40]⟩ (some (.index ⟨.DOT, [46]⟩ (some (.ident ⟨.IDENT, [109]⟩)) (some (.ident ⟨.IDENT, [107]⟩))))
+     [some (.intLit ⟨.INT, [51]⟩)])]
+
+/-- maps, lambdas and the open-ended slice are in the fragment, rendered `m = { "k" : x => { x + 1 } , 2 : ( a , b ) => { a [ b : ] } } m . k ( 3 )` -/
+example : fragProg false false exMap = true ∧ fragProg true false exMap = true ∧
+    (progToks false false exMap).map (·.type) =
+    [.IDENT, .ASSIGN, .LBRACE, .STRING, .COLON, .IDENT, .LAMBDA, .LBRACE, .IDENT, .PLUS, .INT, .RBRACE, .COMMA,
+     .INT, .COLON, .LPAREN, .IDENT, .COMMA, .IDENT, .RPAREN, .LAMBDA, .LBRACE, .IDENT, .LBRACKET, .IDENT, .COLON, .RBRACKET, .RBRACE, .RBRACE,
+     .IDENT, .DOT, .IDENT, .LPAREN, .INT, .RPAREN] := by decide
+
+example : ∃ F, ∀ fuel, F ≤ fuel →
+    parseProgram (streamOf (progToks false false exMap)) fuel = .ok { program := exMap, errors := 0, cont := false } :=
+  roundtrip_streamOf false false exMap (by decide)
+
+/-- the hypotheses are met by non-trivial programs: the expression is in the fragment in every mode … -/
+example : fragProg false false [some exTree] = true ∧ fragProg true false [some exTree] = true
+    ∧ fragProg false false exProg = true ∧ fragProg true true exProg = true
+    ∧ fragProg false false exFunc = true ∧ fragProg true false exFunc = true := by decide
+
+/-- … so is a function with a variadic parameter, an `if` / `else if` / `else` chain, a loop and `return`s, rendered
+`func f ( a , .. ) { if a < 1 { return a } else if ! a { x ++ } else { break } for a { print ( a ) } return }` … -/
+example : (progToks false false exFunc).map (·.type) =
+    [.FUNC, .IDENT, .LPAREN, .IDENT, .COMMA, .DOTDOT, .RPAREN, .LBRACE,
+     .IF, .IDENT, .LT, .INT, .LBRACE, .RETURN, .IDENT, .RBRACE, .ELSE, .IF, .BANG, .IDENT, .LBRACE, .IDENT, .INCR, .RBRACE,
+     .ELSE, .LBRACE, .BREAK, .RBRACE, .FOR, .IDENT, .LBRACE, .PRINT, .LPAREN, .IDENT, .RPAREN, .RBRACE, .RETURN, .RBRACE] := by decide
+
+example : ∃ F, ∀ fuel, F ≤ fuel →
+    parseProgram (streamOf (progToks true false exFunc)) fuel = .ok { program := exFunc, errors := 0, cont := false } :=
+  roundtrip_streamOf true false exFunc (by decide)
+
+/-- … its rendering has the parentheses where the printer puts them: `a + b * (c - d) < -e` … -/
+example : (progToks false false [some exTree]).map (·.type) =
+    [.IDENT, .PLUS, .IDENT, .ASTERISK, .LPAREN, .IDENT, .MINUS, .IDENT, .RPAREN, .LT, .MINUS, .IDENT] := by decide
+
+/-- … and the theorem applies -/
+example : ∃ F, ∀ fuel, F ≤ fuel →
+    parseProgram (streamOf (progToks false false exProg)) fuel = .ok { program := exProg, errors := 0, cont := false } :=
+  roundtrip_streamOf false false exProg (by decide)
+
+/-- `a + (b + c)` -/
+def exAssoc : Node :=
+  .infix ⟨.PLUS, [43]⟩ (some (.ident ⟨.IDENT, [97]⟩))
+    (some (.infix ⟨.PLUS, [43]⟩ (some (.ident ⟨.IDENT, [98]⟩)) (some (.ident ⟨.IDENT, [99]⟩))))
+
+/-- NOT in the fragment, and the known class "repeated-associative-operator-on-the-right" breaks it: the rendering
+`a + b + c` (no parentheses: the printer's `sameAssociativeOperator` exception) parses back to `(a + b) + c` -/
+theorem outside_fragment_assoc :
+    fragProg false false [some exAssoc] = false
+    ∧ (progToks false false [some exAssoc]).map (·.type) = [.IDENT, .PLUS, .IDENT, .PLUS, .IDENT]
+    ∧ rightIsInfix [some exAssoc] = true
+    ∧ rightIsInfix (progOf (streamOf (progToks false false [some exAssoc]))) = false
+    ∧ (progOf (streamOf (progToks false false [some exAssoc]))).length = 1 := by decide
+
+/-- `a` ; `-b` -/
+def exStmts : NList := [some (.ident ⟨.IDENT, [97]⟩), some (.pre ⟨.MINUS, [45]⟩ (some (.ident ⟨.IDENT, [98]⟩)))]
+
+/-- NOT in the NORMAL-mode fragment, and the known class "statement-starts-with-prefix-operator" breaks it: the
+two statements come back as the one expression `a - b`; in COMPACT mode the second statement is printed `(-b)` and
+the program is in the fragment -/
+theorem outside_fragment_stmt :
+    fragProg false false exStmts = false
+    ∧ (progOf (streamOf (progToks false false exStmts))).length = 1
+    ∧ fragProg true false exStmts = true
+    ∧ (progToks true false exStmts).map (·.type) = [.IDENT, .LPAREN, .MINUS, .IDENT, .RPAREN]
+    ∧ (progOf (streamOf (progToks true false exStmts))).length = 2 := by decide
 
 end Grol.C02
